@@ -4,7 +4,8 @@
 
 Each mutation is an exact text edit of src/mxlpy/meta/source_tools.py (fails loudly when the text is not
 found, so a stale mutation cannot pass as "caught").  `old-translator` splices the pre-cc17922
-_handle_fn_body back in; the three `seeded-*` entries apply the stored seeded patches.
+_handle_fn_body back in; the `seeded-*` entries apply the stored seeded patches (`seeded-c06-2` is re-based as a text
+edit: its patch no longer applies since /repo 2ec86c1).
 """
 
 from __future__ import annotations
@@ -62,11 +63,27 @@ EDITS: dict[str, list[tuple[str, str]]] = {
         ),
         ("def _handle_name(node: ast.Name, ctx: Context)", "_NAME_MEMO: dict[int, dict[str, float]] = {}\n\n\ndef _handle_name(node: ast.Name, ctx: Context)"),
     ],
+    # seeded C06-2 re-based onto the text after /repo 2ec86c1 (the stored patch no longer applies): simultaneous
+    # substitution only when a bare model name collides with a parameter name
+    "seeded-c06-2": [
+        (
+            "            sympy_expr = sympy_expr.subs(\n                dict(zip(fn_args, model_args, strict=True)), simultaneous=True\n            )",
+            "            replacements = dict(zip(fn_args, model_args, strict=True))\n"
+            "            collides = any(\n"
+            "                str(new) in replacements and str(new) != old\n"
+            "                for old, new in replacements.items()\n"
+            "            )\n"
+            "            sympy_expr = sympy_expr.subs(replacements, simultaneous=collides)",
+        )
+    ],
     # harmless refactor: an extra debug line inside the If block (only the shape text changes)
     "harmless-debug-line": [("            condition = _handle_expr(node.test, ctx)\n", '            condition = _handle_expr(node.test, ctx)\n            _LOGGER.debug("if %s", condition)\n')],
 }
 
-PATCHES = {"seeded-c06-1": "/verif/seeded/C06-1/patch.diff", "seeded-c06-2": "/verif/seeded/C06-2/patch.diff", "seeded-c06-3": "/verif/seeded/C06-3/patch.diff", "seeded-c07-2": "/verif/seeded/C07-2/patch.diff"}
+PATCHES = {
+    "seeded-c06-1": "/verif/seeded/C06-1/patch.diff", "seeded-c06-3": "/verif/seeded/C06-3/patch.diff", "seeded-c07-2": "/verif/seeded/C07-2/patch.diff",
+    "seeded-c06-5": "/verif/seeded/C06-5/patch.diff", "seeded-c06-6": "/verif/seeded/C06-6/patch.diff", "seeded-c06-7": "/verif/seeded/C06-7/patch.diff",
+}
 
 
 def old_translator() -> None:
